@@ -139,15 +139,36 @@ class QNoiseScheduler(tf.keras.callbacks.Callback):
       A list of quantizers with the qnoise_factor variable.
     """
     all_quantizers = []
-    for layer in model.layers:
-      # A list of attributes holding the quantizer(s).
-      for attr in ["quantizers", "quantizer"]:
+
+    def add_quantizers(layer):
+      # A list of attributes holding the quantizer(s). The activation of a
+      # layer can be a quantizer as well.
+      for attr in ["quantizers", "quantizer", "get_quantizers", "activation",
+                   "recurrent_activation"]:
         if hasattr(layer, attr):
           quantizers = getattr(layer, attr)
-          quantizers = quantizers if attr == "quantizers" else [quantizers]
+          if attr == "get_quantizers":
+            quantizers = quantizers()
+          elif attr != "quantizers":
+            quantizers = [quantizers]
           for quantizer in quantizers:
-            if hasattr(quantizer, "qnoise_factor"):
+            # A quantizer reached more than once is listed once.
+            if hasattr(quantizer, "qnoise_factor") and not any(
+                quantizer is q for q in all_quantizers):
               all_quantizers.append(quantizer)
+      # A list of attributes holding layers with their own quantizers: the
+      # layers of a nested model, the cell of a recurrent layer and the
+      # layer(s) of a wrapper.
+      for attr in ["layers", "cell", "forward_layer", "backward_layer",
+                   "layer"]:
+        if hasattr(layer, attr):
+          sub_layers = getattr(layer, attr)
+          sub_layers = sub_layers if attr == "layers" else [sub_layers]
+          for sub_layer in sub_layers:
+            add_quantizers(sub_layer)
+
+    for layer in model.layers:
+      add_quantizers(layer)
 
     return all_quantizers
 
